@@ -44,6 +44,14 @@ def gen_pool(rng, n, p_invalid=0.08):
     for e in entries:
         if rng.random() < 0.12:
             e["m"] = rng.choice(["", "", " ", "0"])  # the meaning is free text of the AHB; maus only demands a string
+    if n >= 2 and rng.random() < 0.15:
+        # the same qualifier listed twice with different expressions (maus' replace_value_pool with a many-to-one mapping produces such pools)
+        i, j = sorted(rng.sample(range(n), 2))
+        entries[j]["q"] = entries[i]["q"]
+        if "m" in entries[i]:
+            entries[j]["m"] = entries[i]["m"]
+        else:
+            entries[j].pop("m", None)
     return {"k": "P", "d": d, "entries": entries, "input": None}
 
 
